@@ -101,9 +101,13 @@ func indKey(v ssa.Value) string {
 type pathFacts struct {
 	notLiving, eqShow, eqPlaceholder, neHide, nePlaceholder bool
 	data                                                    bool
+	byHelper                                                bool // a boolean helper's answer implies the guard
 }
 
 func (f pathFacts) guarded() bool {
+	if f.byHelper {
+		return true
+	}
 	if f.data {
 		return f.notLiving || f.eqShow || f.eqPlaceholder || f.neHide
 	}
@@ -121,6 +125,17 @@ func (e *e3) condFacts(cond ssa.Value, outcome bool, key string, f *pathFacts) {
 		if c.Call.StaticCallee() == e.isLiving && len(c.Call.Args) == 1 && indKey(c.Call.Args[0]) == key {
 			if !outcome {
 				f.notLiving = true
+			}
+			return
+		}
+		// a boolean helper of the publisher that was handed this individual (the guard extracted into a predicate)
+		if cal := c.Call.StaticCallee(); cal != nil && len(cal.Blocks) > 0 && strings.HasPrefix(pkgPathOf(cal), load.PkgHTML) && cal.Signature.Results().Len() == 1 {
+			if b, isB := cal.Signature.Results().At(0).Type().Underlying().(*types.Basic); isB && b.Kind() == types.Bool {
+				for i, a := range c.Call.Args {
+					if indKey(su.Strip(a)) == key && i < len(cal.Params) && e.predicateImplies(cal, i, outcome) {
+						f.byHelper = true
+					}
+				}
 			}
 		}
 	case *ssa.BinOp:
@@ -181,6 +196,108 @@ func constInt64(c *ssa.Const) (int64, bool) {
 		return 0, false
 	}
 	return 0, false
+}
+
+// predicateImplies: when the boolean function fn, called with the individual as argument #idx, answers `outcome`,
+// the living/visibility guard holds for that individual - decided by enumerating fn's paths to its returns.
+func (e *e3) predicateImplies(fn *ssa.Function, idx int, outcome bool) bool {
+	mk := fmt.Sprintf("pred|%s|%s|%d|%v", e.mode, fn.String(), idx, outcome)
+	if r, ok := e.guardMemo[mk]; ok {
+		return r
+	}
+	e.guardMemo[mk] = false // recursion guard
+	key := indKey(fn.Params[idx])
+	pathPred := map[*ssa.BasicBlock]*ssa.BasicBlock{}
+	resolve := func(v ssa.Value) ssa.Value {
+		for i := 0; i < 10; i++ {
+			ph, ok := v.(*ssa.Phi)
+			if !ok {
+				return v
+			}
+			pr := pathPred[ph.Block()]
+			moved := false
+			for j, q := range ph.Block().Preds {
+				if q == pr && j < len(ph.Edges) {
+					v, moved = ph.Edges[j], true
+					break
+				}
+			}
+			if !moved {
+				return v
+			}
+		}
+		return v
+	}
+	ok := true
+	count := 0
+	var walk func(b *ssa.BasicBlock, f pathFacts, on map[*ssa.BasicBlock]bool)
+	walk = func(b *ssa.BasicBlock, f pathFacts, on map[*ssa.BasicBlock]bool) {
+		if !ok {
+			return
+		}
+		count++
+		if count > 20000 {
+			ok = false
+			return
+		}
+		last := b.Instrs[len(b.Instrs)-1]
+		if ret, isRet := last.(*ssa.Return); isRet {
+			v := resolve(ret.Results[0])
+			if k, isK := v.(*ssa.Const); isK && k.Value != nil && k.Value.Kind() == constant.Bool {
+				if constant.BoolVal(k.Value) == outcome && !f.guarded() {
+					ok = false
+				}
+				return
+			}
+			nf := f
+			e.condFacts(v, outcome, key, &nf)
+			if !nf.guarded() {
+				ok = false
+			}
+			return
+		}
+		on[b] = true
+		defer func() { on[b] = false }()
+		if iff, isIf := last.(*ssa.If); isIf {
+			cond := iff.Cond
+			neg := false
+			for {
+				if u, isNot := cond.(*ssa.UnOp); isNot && u.Op == token.NOT {
+					cond, neg = u.X, !neg
+					continue
+				}
+				break
+			}
+			cond = resolve(cond)
+			for i, s := range b.Succs {
+				if on[s] {
+					continue
+				}
+				out := (i == 0) != neg
+				if k, isK := cond.(*ssa.Const); isK && k.Value != nil && k.Value.Kind() == constant.Bool && constant.BoolVal(k.Value) != out {
+					continue
+				}
+				nf := f
+				e.condFacts(cond, out, key, &nf)
+				old := pathPred[s]
+				pathPred[s] = b
+				walk(s, nf, on)
+				pathPred[s] = old
+			}
+			return
+		}
+		for _, s := range b.Succs {
+			if !on[s] {
+				old := pathPred[s]
+				pathPred[s] = b
+				walk(s, f, on)
+				pathPred[s] = old
+			}
+		}
+	}
+	walk(fn.Blocks[0], pathFacts{data: e.mode == "data"}, map[*ssa.BasicBlock]bool{})
+	e.guardMemo[mk] = ok
+	return ok
 }
 
 // guardedAt: on every CFG path from the function entry to ins, the guard
